@@ -9,7 +9,7 @@ PNET = 'pnet 0.33 accessors/constructors/checksum routines are assumed contracts
 CLAIMS = {
  'C01': dict(
    text='Verus proves, for every function under contract on the reply() path from masscanned::reply down to tcp::repl/udp::repl/icmp*::repl/arp::repl (bodies extracted verbatim), absence of panics: every index, slice, arithmetic operation, unwrap/expect and callee precondition (incl. pnet set_payload bounds and Debug-formatting obligations of log arguments, evaluated at every verbosity) and termination of every loop, for all frames <= 4096 bytes and all table states satisfying the representation invariant, which every function preserves. Ground: both automaton initialisers run to completion on the real binary.',
-   note='STAGED: proto::repl and the smack matcher are under contract; the application responders behind it (HTTP, SSH, STUN, RPC, SMB, DNS, Gh0st) are still assumed contracts (trusted stubs, listed in the evidence). Loggers (console/logfmt) are represented by the MetaLogger shim. ' + PNET),
+   note='STAGED: proto::repl and the smack matcher are under contract; HTTP, SSH, STUN, DNS and Gh0st responders are under contract; RPC and SMB are still assumed contracts (trusted stubs, listed in the evidence). Loggers (console/logfmt) are represented by the MetaLogger shim. ' + PNET),
  'C02': dict(
    text='Postconditions of layer_2::reply, get_authorized_eth_addr (loop invariant over the self-IP set), arp::repl, ipv4::repl, ipv6::repl, icmpv6::repl/nd_ns_repl: a reply exists only if dst MAC is in Auth(MAC,S), src IP not denied, EtherType/next protocol supported; with S configured the reply source IP and every advertised address is in S. Composed to the frame level in eth_reply_ok (masscanned::reply).',
    note=PNET + '; HashSet<IpAddr>/HashSet<MacAddr> obey the vstd key model (assumed)'),
@@ -39,10 +39,13 @@ CLAIMS = {
    note='the product explorer (tools/ground.py, Python) is in the trusted base; lazy_static initialise-once semantics assumed (R3); the 8 known discrepancy classes (wildcard shadowing) are known findings, any other class is a violation; "answered by that protocol\'s responder" composes with responder contracts that are still assumed (trusted stubs listed in the evidence); segmentation lemma scan(a++b) not yet proved'),
  'C12': dict(
    text='Per-protocol clauses proved so far: ARP op != 1, ICMP type != 8, ICMPv6 type not in {128,135} or code != 0, TCP flags == SYN|ACK or RST or bare ACK => no reply (iff postconditions of the responders).',
-   note='STUN class != Request => no STUN response is proved (stun::repl iff clause); PARTIAL: DNS QR=1, SMB reply flag, RPC reply and the reflection-chain bound are not yet under contract'),
+   note='STUN class != Request => no STUN response, DNS QR=1 => no DNS response are proved; PARTIAL: SMB reply flag, RPC reply and the reflection-chain bound are not yet under contract'),
  'C13': dict(
    text='http_parse is proved memory-safe and terminating (lexicographic measure; the `i -= 1` after the method matcher is safe because every match row of the compiled HTTP automaton reports exactly one id -- ground fact) and EQUAL to the reference parser http_run (method automaton = run of the compiled table; request line and header automaton byte by byte, written from RFC 2616 5.1 with relaxed line ends); http::repl answers iff that parser, started from the flow state (TCP) or fresh (UDP), ends in CONTENT, so FAIL is absorbing and nothing is sent before the empty line. The response is proved to be P0 ++ date ++ P1 ++ dec(|content|) ++ P2 ++ content ++ P3 with the literal pieces taken from the format! template in the source; lemma_http_template evaluates on those pieces: starts "HTTP/1.1 401", P1 ends "Content-Length: ", P2 contains "\\nWWW-Authenticate: " and ends with the first empty line, P3 is empty (Content-Length == body bytes).',
    note='the nine methods are recognised by the compiled HTTP_SMACK table (ground: wf, one id per row); grammar-level lemmas (which request lines reach CONTENT) are not yet proved, so "malformed request line => silence" is claimed only through FAIL-absorption of the reference automaton; chrono date string assumed LF-free and <= 64 bytes; Display of usize = dec(n); byte2str trusted'),
+ 'C14': dict(
+   text='Per-function contracts on the whole DNS dissector stack (PacketDissector, DNSHeader, DNSQuery, DNSRR, DNSPacket; trait MPacket with a ghost invariant member): representation invariants preserved by every parse step for all byte sequences; DNSHeader::try_from decodes exactly the six big-endian words and the flag bits (agreement invariant over the consumed prefix); header/question/RR serialisers equal byte-level spec functions; header.repl = same id, QR=1, opcode and RD copied, AA=1, ANCOUNT=QDCOUNT; question.repl answers iff class IN and type A and then with owner name ++ A/IN ++ TTL 43200 ++ RDLENGTH ++ the IPv4 address the query was sent to; DNSPacket::repl answers nothing when QR=1 or when any question is not IN/A (all-or-nothing) and its reply is at most 36876 bytes for frames <= 4096 bytes (size accounting invariant).',
+   note='PARTIAL: the end-to-end theorem reply == dns_response_spec(query bytes) (parse/serialise round trips of questions and records inside DNSPacket::repl) is not proved; name parsing is byte-oriented, not label-aware (a label containing a 00 byte ends the name early: design-round finding, not yet turned into an obligation); messages with additional/authority records are never answered (parser has no states for them)'),
  'C15': dict(
    text='stun::repl is proved to answer iff the payload is at least 20 + declared length bytes long, class bits == Request and method == Binding (decoded per RFC 5389 figure 3, all twelve method bits), and then with exactly stun_response_spec: type 0x0101, length = 4 + attribute length, the request\'s 16 id bytes, one MAPPED-ADDRESS (family 1|2, observed source port and address). Attribute parsing (TryFrom, get_attributes loop) is proved total and in-bounds for every TLV layout; the change-port effect is proved equal to the TLV-walk predicate stun_change_port_req and applied exactly once (port + 1 mod 2^16).',
    note='to_be_bytes/byteorder::read_u128 inverse through the uninterpreted be_bytes16; u8->u8 try_into identity assumed (std reflexive From); identification of STUN payloads is the dispatcher\'s part (C10, with its known findings)'),
